@@ -4,7 +4,8 @@ SPEC = dict(
     id="C19",
     props_file="Props/C19.v",
     translators=["perms"],
-    harness=[dict(pkg="api", test="TestVerifC19", timeout=900, timeout_thorough=2400)],
+    harness=[dict(pkg="api", test="TestVerifC19", timeout=900, timeout_thorough=2400),
+             dict(pkg="nodebuilder/node", test="TestVerifC19Keys", timeout=300, timeout_thorough=600)],
     allowed_axioms=[],
     level_text=("Machine-checked theorems (Coq) over a table that a translator regenerates from the source on every run: every field of every "
                 "registered module's API.Internal (name, raw `perm` tag, signature), every exported method of the wrapper structs with the field "
@@ -17,7 +18,7 @@ SPEC = dict(
                 "exhaustively on every run: every served method x 24 credentials x 4 server configurations over HTTP and websocket on a real "
                 "rpc.Server built by the node's own constructor and registration list (partial: cryptographic strength of HS256 and the module "
                 "implementations behind the mocks are outside the model)."),
-    rule=("temporal scenario (per authenticated server configuration): one admin token minted with a 2 s lifetime is used while valid on one method of each declared permission level and used AGAIN after its expiry (the verdict on a token must not be remembered); exhaustive: every method the running server serves (cross-checked in Coq against the generated table, both directions) x every "
+    rule=("key scenario (L3 only, harness nodebuilder/node): the real jwtSignerAndVerifier over a file-system and an in-memory keystore, first start and two restarts: tokens of the node's signer / of the persisted secret are accepted, tokens signed with any other key (all-zero, random, one bit flipped, prefix, one byte longer) are refused, restarts agree; temporal scenario (per authenticated server configuration): one admin token minted with a 2 s lifetime is used while valid on one method of each declared permission level and used AGAIN after its expiry (the verdict on a token must not be remembered); exhaustive: every method the running server serves (cross-checked in Coq against the generated table, both directions) x every "
           "credential (none, public, read, read+write, admin, expired, other key, garbage; plus TTL-valid, admin-only, write-only, no-public, "
           "empty and unknown permission lists, missing Bearer prefix, ?token= form transport, forged payload, alg=none, other HMAC algorithm, "
           "truncated, signed-but-undecodable claims) x {auth, auth+CORS, auth+metrics, auth disabled}; websocket for subscriptions and, on the "
